@@ -315,9 +315,11 @@ BulkCall(s, Q, a, cl, idx) ==
     THEN LET sup == IF a.shape = "map" THEN SeqToSet(a.supply) \cap Keys(s) ELSE {}
          IN [s |-> LoadOk(s), ok |-> TRUE,
              ph |-> {MW(k, "put", BV(s, a, k, idx), cl, k \in Q) : k \in sup} \cup {MW(k, "del", 0, cl, TRUE) : k \in Q \ sup}]
-    ELSE \* the code also applies the reload-failure hook to entries of keys a failing bulk reload volunteered
-         LET extra == IF a.shape = "err" THEN SeqToSet(a.supply) \cap Keys(s) ELSE {}
-         IN [s |-> LoadKo(s), ok |-> FALSE,
+    ELSE \* the code also applies the reload-failure hook to entries of keys a failing bulk reload volunteered;
+         \* a failure wrapping the not-found sentinel ("errnf") fails the whole call like any error, but the load
+         \* statistics count it as a success (as they do for a single not-found load)
+         LET extra == IF a.shape \in {"err", "errnf"} THEN SeqToSet(a.supply) \cap Keys(s) ELSE {}
+         IN [s |-> IF a.shape = "errnf" THEN LoadOk(s) ELSE LoadKo(s), ok |-> FALSE,
              ph |-> IF cl = "refresh" THEN {MW(k, "fail", 0, cl, TRUE) : k \in Q \cup extra} ELSE {}]
 
 RECURSIVE Lookups(_, _, _)   \* counted lookups of BulkGet, in request order
@@ -347,8 +349,8 @@ DoBulkGet(s, a) ==
         sup == IF a.shape = "map" THEN SeqToSet(a.supply) ELSE {}
         loaded == IF M = {} \/ p1 \/ ~c2.ok THEN {} ELSE {<<k, BV(s, a, k, i2)>> : k \in M \cap sup}
         pan == p1 \/ (M # {} /\ a.shape = "panic")
-    IN R(c2.s, [O0 EXCEPT !.ok = IF M # {} /\ ~p1 /\ a.shape = "err" THEN 0 ELSE 1,
-                          !.err = IF M # {} /\ ~p1 /\ a.shape = "err" THEN "err" ELSE "",
+    IN R(c2.s, [O0 EXCEPT !.ok = IF M # {} /\ ~p1 /\ a.shape \in {"err", "errnf"} THEN 0 ELSE 1,
+                          !.err = IF M # {} /\ ~p1 /\ a.shape = "err" THEN "err" ELSE IF M # {} /\ ~p1 /\ a.shape = "errnf" THEN "nf" ELSE "",
                           !.panic = IF pan THEN 1 ELSE 0,
                           !.res = hitv \cup loaded,
                           !.mw = (IF T = {} THEN <<>> ELSE <<c1.ph>>) \o (IF M = {} \/ p1 THEN <<>> ELSE <<c2.ph>>),
@@ -371,6 +373,7 @@ DoBulkRefresh(s, a) ==
         sup == IF a.shape = "map" THEN SeqToSet(a.supply) ELSE {}
         pan == a.shape = "panic" /\ Q # {}
         rr(k) == IF a.shape = "err" THEN [k |-> k, v |-> 0, err |-> "err"]
+                 ELSE IF a.shape = "errnf" THEN [k |-> k, v |-> 0, err |-> "nf"]
                  ELSE IF k \in sup THEN [k |-> k, v |-> BV(s, a, k, IF k \in TL THEN 1 ELSE i2), err |-> ""]
                  ELSE [k |-> k, v |-> 0, err |-> "nf"]
     IN R(c2.s, [O0 EXCEPT !.ch = 1, !.panic = IF pan THEN 1 ELSE 0,
